@@ -84,12 +84,12 @@ def r2(ctx):
     for nid, v in fn.nodes.items():
         if v['k'] == 'CXXOperatorCallExpr' and v.get('op') == '==' and v.get('args'):
             ks = [fn.key(a) for a in v['args']]
-            if 'fieldName' in ks:
-                other = ks[1] if ks[0] == 'fieldName' else ks[0]
+            if fn.P(0) in ks:
+                other = ks[1] if ks[0] == fn.P(0) else ks[0]
                 have.add(other.strip('"'))
     # columns without an own branch fall through to dumpAttribute(fieldName) (free-text attributes such as the comment)
     fallback = any((fn.nodes[c].get('callee') or '').endswith('dumpAttribute') and len(fn.nodes[c].get('args', [])) > 2 and
-                   'fieldName' in fn.key(fn.nodes[c]['args'][2]) for c in fn.all('CallExpr', 'CXXMemberCallExpr'))
+                   fn.P(0) in fn.key(fn.nodes[c]['args'][2]) for c in fn.all('CallExpr', 'CXXMemberCallExpr'))
     for c in full:
         ok = c in have or (c == 'comment' and fallback)
         ctx.ob('C19.R2', fn, fn.body, ok, 'dump branch for column %s' % c, 'present: %s%s' % (
@@ -100,7 +100,7 @@ def r2(ctx):
     okd = False
     for c in deleg:
         atoms = set((a[0], a[1]) for a in cf.atoms(c))
-        okd = ('(fieldName == "id")', False) in atoms
+        okd = ('(%s == "id")' % cf.P(0), False) in atoms
     ctx.ob('C19.R2', cf, deleg[0] if deleg else cf.body, okd, 'chained override covers exactly "id"', 'delegates every other column: %s' % okd)
     # length insertion in every iteration
     ins = [nid for nid, v in cf.nodes.items() if v['k'] == 'CXXOperatorCallExpr' and v.get('op') == '<<' and v.get('args') and
@@ -110,9 +110,14 @@ def r2(ctx):
     for i in ins:
         atoms = [(a[0], a[1]) for a in cf.atoms(i)]
         extra = [a for a in atoms if 'm_lengths' in a[0] or 'length' in a[0].lower()]
-        loop_only = all(('index <' in a[0]) or ('fieldName' in a[0]) or ('it <' in a[0]) for a in atoms)
+        loopconds = set()
+        for l in cf.all('ForStmt', 'WhileStmt'):
+            if 'cond' in cf.nodes[l]:
+                for conj in facts.implied(cf, cf.nodes[l]['cond'], True):
+                    loopconds |= set(facts.atom_key(cf, x)[0] for x in conj)
+        loop_only = all(a[0] in loopconds or a[0] == '(%s == "id")' % cf.P(0) for a in atoms)
         ctx.ob('C19.R2', cf, i, not extra and loop_only, 'part length written for every part',
-               'conditions on the insertion: %s' % [a for a in atoms if 'fieldName' not in a[0]])
+               'conditions on the insertion: %s' % [a for a in atoms if cf.P(0) not in a[0]])
 
 
 def r3(ctx):
@@ -123,11 +128,11 @@ def r3(ctx):
     ctx.touch(fn)
     # the plain output `*output << str`
     plain = [nid for nid, v in fn.nodes.items() if v['k'] == 'CXXOperatorCallExpr' and v.get('op') == '<<' and v.get('args') and
-             fn.key(v['args'][1]) == 'str' and fn.key(v['args'][0]) == '*output']
+             fn.key(v['args'][1]) == fn.P(1) and fn.key(v['args'][0]) == '*' + fn.P(2)]
     ok = False
     for p in plain:
         atoms = set((a[0], a[1]) for a in fn.atoms(p))
-        ok = any('find_first_of(#44' in k and '== #18446744073709551615)' in k and pol for k, pol in atoms)
+        ok = any('%s.find_first_of(#44' % fn.P(1) in k and '== #18446744073709551615)' in k and pol for k, pol in atoms)
     ctx.ob('C19.R3', fn, plain[0] if plain else fn.body, ok, 'unquoted output', 'only without field separator: %s' % ok)
     dbl = [nid for nid, v in fn.nodes.items() if v['k'] == 'CXXOperatorCallExpr' and v.get('op') == '<<' and v.get('args') and
            fn.val(v['args'][1]) == 34 and fn.nodes.get(fn.strip(v['args'][0]), {}).get('k') == 'CXXOperatorCallExpr' and
@@ -143,35 +148,57 @@ def r3(ctx):
 def r4(ctx):
     ctx.rule('C19.R4', 'in FileReader::splitFields a quote character opens quoted text only directly after a field separator '
              'and only while not inside quoted text; inside quoted text it closes it; the field separator splits only '
-             'outside quoted text', minimum=3, star=True)
+             'outside quoted text', minimum=5, star=True)
     fb = ctx.fb
     fn = fb.fn('ebusd::FileReader::splitFields')
     ctx.touch(fn)
     n = 0
-    qv = 'quotedText'
+
+    def chain_val(r):
+        """value of the right-hand side, following a = b = const"""
+        r = fn.strip(r)
+        while fn.nodes.get(r, {}).get('k') == 'BinaryOperator' and fn.nodes[r].get('op') == '=':
+            r = fn.strip(fn.nodes[r]['rhs'])
+        return fn.val(r)
+    # roles: the quote state is the bool local that is both set and cleared under the quote-character case of the character
+    # switch; the previous character is the local that is assigned the switch operand
+    sw = [b_ for b_ in fn.blocks.values() if b_.tk == 'SwitchStmt']
+    if len(sw) != 1:
+        raise AnalysisBroken('C19.R4: character switch of splitFields not recognised')
+    chv = fn.key(fn.effective_cond(sw[0].id)) if sw[0].cond is not None else None
+    asg = []
     for nid, v in sorted(fn.nodes.items()):
-        if v['k'] == 'BinaryOperator' and v.get('op') == '=':
-            lk = fn.key(v['lhs'])
-            rk = fn.key(v['rhs'])
-            if lk != qv:
-                continue
+        if v['k'] == 'BinaryOperator' and v.get('op') == '=' and chain_val(v['rhs']) in (0, 1) and (v.get('t') or '') == 'bool':
             atoms = set((a[0], a[1]) for a in fn.atoms(nid))
-            inside = (qv, True) in atoms
-            outside = (qv, False) in atoms
-            if 'wasQuoted' in rk and '#1' in rk:
-                n += 1
-                aft = ('(prev == #44)', True) in atoms
-                ctx.ob('C19.R4', fn, nid, outside and aft, 'opening quote', 'only outside quoted text: %s; only after a separator: %s' % (outside, aft))
-            elif fn.val(v['rhs']) == 0:
-                n += 1
-                ctx.ob('C19.R4', fn, nid, inside, 'closing quote', 'only inside quoted text: %s' % inside)
+            asg.append((nid, fn.key(v['lhs']), chain_val(v['rhs']), atoms))
+    in_quote_case = lambda atoms: any(k.startswith('switch:') and k.endswith('=34') and p for k, p in atoms)
+    cands = [x for x in set(a[1] for a in asg) if {a[2] for a in asg if a[1] == x and in_quote_case(a[3])} == {0, 1}]
+    prevs = fn.local_where(lambda k, r: k == chv)
+    if len(cands) != 1 or len(prevs) != 1:
+        raise AnalysisBroken('C19.R4: quote state machine of splitFields not recognised (state %s, previous character %s)' % (cands, prevs))
+    qv, prev = cands[0], prevs[0]
+    for nid, lk, val, atoms in asg:
+        if lk != qv:
+            continue
+        inside = (qv, True) in atoms
+        outside = (qv, False) in atoms
+        if val == 1:
+            n += 1
+            aft = ('(%s == #44)' % prev, True) in atoms
+            requote = ('(%s == #34)' % prev, True) in atoms
+            what = 'opening quote' if aft or not requote else 're-entering quoted text after a quote character'
+            ctx.ob('C19.R4', fn, nid, outside and (aft or requote), what,
+                   'only outside quoted text: %s; only directly after a separator: %s (or after a quote character: %s)' % (outside, aft, requote))
+        else:
+            n += 1
+            ctx.ob('C19.R4', fn, nid, inside, 'closing quote', 'only inside quoted text: %s' % inside)
     pushes = [c for c in fn.all('CXXMemberCallExpr') if (fn.nodes[c].get('callee') or '').endswith('::push_back')]
     for c in pushes:
         atoms = set((a[0], a[1]) for a in fn.atoms(c))
         if any(k.startswith('switch:') and k.endswith('=44') for k, p in atoms):
             n += 1
             ctx.ob('C19.R4', fn, c, (qv, False) in atoms, 'field split at separator', 'only outside quoted text: %s' % ((qv, False) in atoms))
-    if n < 3:
+    if n < 5:
         raise AnalysisBroken('C19.R4: quote state machine of splitFields not recognised (%d sites)' % n)
 
 
